@@ -388,6 +388,7 @@ class PrimeMixin:
             >>> context['-1', '-sg']
             (('2pl', '3pl'), ('-1', '+pl', '-sg'))
         """
+        items = tuple(items)
         try:
             extent = self._Objects.frommembers(items)
         except KeyError:
